@@ -170,7 +170,14 @@ def layout_case(rec, seedt):
     desc = {"kind": "layout", "seed": list(seedt), "N": N, "order": kw["order"],
             "backend": kw["backend"], "single": single is not None}
     rec.case(desc, nontrivial=True)
+    fp0 = guard.fingerprint(base)
     r0 = api.attempt(rec, lambda: run_api(base, fs, kw, single), "reference layout")
+    rec.count("write_guard_calls")
+    if guard.fingerprint(base) != fp0:
+        rec.violation("caller-array-modified",
+                      f"finite 2xN float64 C-contiguous input (N={N}) was modified by the analysis "
+                      f"(order {kw['order']}, {kw['backend']}, single-bin={single is not None})")
+        base = np.vstack([x, y]).astype(np.float64)
     if r0 is None:
         return
     s0 = stats_of(r0)
@@ -319,6 +326,61 @@ def finiteness_case(rec, seedt):
                           f"({kind}, N={N}, order {kw['order']})")
 
 
+def writeguard_case(rec, seedt):
+    """Finite caller-owned float64 C-contiguous arrays (the layout the analyzer keeps without
+    copying) through construct / plan / compute / several single-bin requests, every order and
+    backend: the bytes must be unchanged after each call, and a second compute() must still
+    see the same record."""
+    from speckit.analysis import SpectrumAnalyzer
+    rng = gen.rng_for(*seedt)
+    N = int(rng.choice([16, 200, 1500]))
+    cross = bool(rng.random() < 0.6)
+    x = gen.record(rng, N, str(rng.choice(["white", "offset1e6", "walk"])))
+    data = np.ascontiguousarray(np.vstack([x, gen.second_channel(rng, x, "mixed")]) if cross else x)
+    kw, _ = common_kw(rng, N)
+    desc = {"kind": "writeguard", "seed": list(seedt), "N": N, "cross": cross,
+            "order": kw["order"], "backend": kw["backend"]}
+    rec.case(desc, nontrivial=True)
+    fp = guard.fingerprint(data)
+    steps = []
+    try:
+        an = SpectrumAnalyzer(data, 1.0, **kw)
+        steps.append("construct")
+        ops = ["compute"] + [str(rng.choice(["single-big", "single-small", "compute", "plan"]))
+                             for _ in range(4)]
+        first = None
+        for op in ops:
+            steps.append(op)
+            if op == "compute":
+                r = an.compute()
+                if first is None:
+                    first = stats_of(r)
+                else:
+                    ok, k, m = stats_equal(first, stats_of(r))
+                    if not ok:
+                        rec.violation("record-changed-between-calls",
+                                      f"compute() after {steps[-5:]} differs from the first "
+                                      f"compute() on the same analyzer ({k}: {m:.3e})")
+                        break
+            elif op == "plan":
+                an.plan()
+            elif op == "single-big":
+                an.compute_single_bin(float(rng.uniform(0.01, 0.4)), L=int(N * rng.uniform(0.86, 1.0)))
+            else:
+                an.compute_single_bin(float(rng.uniform(0.01, 0.4)), L=int(rng.integers(1, max(2, N // 4))))
+            rec.count("write_guard_calls")
+            if guard.fingerprint(data) != fp:
+                rec.violation("caller-array-modified",
+                              f"finite float64 C-contiguous {'2xN' if cross else '1-D'} input was "
+                              f"modified by {op} (after {steps[-4:-1]}; order {kw['order']}, "
+                              f"{kw['backend']})")
+                break
+    except ValueError as e:
+        rec.blocked(f"analysis rejected: {str(e)[:60]}")
+    except Exception as e:
+        rec.violation(f"raises:{type(e).__name__}", f"{steps[-3:]}: {type(e).__name__}: {e}")
+
+
 def helper_case(rec, seedt):
     from speckit import systems
     rng = gen.rng_for(*seedt)
@@ -359,6 +421,7 @@ def run_shard(params, rec):
         nonfinite_case(rec, [seed, sh, "nf2", i])
         finiteness_case(rec, [seed, sh, "fin", i])
         readonly_case(rec, [seed, sh, "ro", i])
+        writeguard_case(rec, [seed, sh, "wg", i])
         if i % 3 == 0:
             layout_case(rec, [seed, sh, "lay", i])
         if i % 10 == 0:
@@ -367,4 +430,4 @@ def run_shard(params, rec):
 
 def replay(case, rec):
     {"nonfinite": nonfinite_case, "layout": layout_case, "readonly": readonly_case,
-     "finite": finiteness_case, "helpers": helper_case}[case["kind"]](rec, case["seed"])
+     "finite": finiteness_case, "helpers": helper_case, "writeguard": writeguard_case}[case["kind"]](rec, case["seed"])
